@@ -131,6 +131,12 @@ pub fn worker_handle(req: &Value) -> Value {
                         "tbs": d.thermal_bridges.iter().map(|t| json!([t.name, t.length.map_or(-1, n4), n4(t.psi), n4(t.frsi)])).collect::<Vec<_>>(),
                         "floors": floors_of(&bdl),
                         "absorptance": d.db.wallcons.values().filter(|c| !c.material.is_empty()).map(|c| json!([c.name, n4(c.absorptance)])).collect::<Vec<_>>(),
+                        "groups": json!({
+                            "materials": d.db.materials.values().map(|m| json!([m.name, m.group])).collect::<Vec<_>>(),
+                            "layers": d.db.wallcons.values().filter(|c| !c.material.is_empty()).map(|c| json!([c.name, c.group])).collect::<Vec<_>>(),
+                            "glasses": d.db.glasses.values().map(|g| json!([g.name, g.group])).collect::<Vec<_>>(),
+                            "frames": d.db.frames.values().map(|f| json!([f.name, f.group])).collect::<Vec<_>>(),
+                            "gaps": d.db.wincons.values().map(|c| json!([c.name, c.group, c.glassgroup, c.framegroup])).collect::<Vec<_>>()}),
                         "matx": d.db.materials.values().filter_map(|m| m.properties.map(|p| json!([m.name, p.thickness.map_or(-1, n4), p.vapourdiffusivity.map_or(-1, n4)]))).collect::<Vec<_>>(),
                     });
                     json!({"events": [{"ev": "Typed", "src": src, "ok": true, "exp": req["exp"], "got": got}]})
